@@ -78,6 +78,58 @@ run_task = Contract(
 UNITS = [run_task]
 
 
+# the same loop with a read-group dictionary: every record a job writes carries a read group the job declares
+RGDEF = z3.Function('read_group_definition', z3.StringSort(), z3.StringSort())
+
+
+def task_rg_setup(eng):
+    task_setup(eng)
+    eng.spec_env['RGDEF_OF'] = Builtin('RGDEF_OF', lambda e, a, k, n: Sym(RGDEF(a[0].z), STR))
+
+    def molecule(e, nm):
+        has_site = named(BOOL, nm + '.has_site')
+        site = (named(STR, nm + '.site_contig'), named(INT, nm + '.site'))
+        e.spec_env['MOL_HAS_SITE'], e.spec_env['MOL_SITE'] = has_site, site
+        frs = [Obj('RgFrag', {'rg': named(STR, '%s.read_group_%d' % (nm, i))}) for i in range(2)]
+        for f in frs:
+            f.vc_immutable = True
+        e.spec_env['FRAGS'] = frs
+        stubs.STUBS['RgFrag'] = {'methods': {
+            'get_site_location': lambda e2, o: site if e2.branch(has_site.z) else None,
+            'get_read_group': lambda e2, o, with_attr_dict=False: (o.attrs['rg'], Sym(RGDEF(o.attrs['rg'].z), STR)) if with_attr_dict else o.attrs['rg']},
+            'props': {}, 'setters': {}}
+        m = Obj('MolStub2', {'frags': frs})
+        m.vc_immutable = True
+        e.spec_env['MOL'] = m
+        return m
+    stubs.STUBS['MolStub2'] = {'methods': {'__iter__': lambda e, o: list(o.attrs['frags']), 'set_meta': lambda e, o, *a: None,
+                                           'write_tags': lambda e, o: None, '__getitem__': lambda e, o, i: o.attrs['frags'][i],
+                                           'write_pysam': lambda e, o, out, **k: e.ghost['written'].append(o)},
+                               'props': {}, 'setters': {}}
+    eng.spec_env['ITERATOR_CLASS'] = Builtin('molecule_iterator_class', lambda e, a, k, n: stubs.ObjSeq(molecule, 'molecules'))
+
+
+run_task_rg = copy.copy(run_task)
+run_task_rg.name = 'run_tagging_task[region mode, read groups]'
+run_task_rg.params = dict(run_task.params)
+run_task_rg.params['read_groups'] = lambda e, n: {}
+run_task_rg.setup = task_rg_setup
+run_task_rg.loops = {1: LoopSpec(
+    inv={'count_matches_writes': 'total_molecules_written == len(GHOST["written"])'},
+    types={'molecule': 'frame', 'fragment': 'frame', 'r': 'frame', 'cut_site_contig': 'frame', 'cut_site_pos': 'frame',
+           'rgid': 'frame', 'read_groups': ('symdict', [(STR,)], STR)},
+    head_hook=head_mark,
+    body_post={
+        'read_group_of_every_fragment_of_a_written_molecule_is_declared':
+            'implies(len(%s) == 1, all((f.rg in read_groups) for f in FRAGS))' % NEW,
+        'declared_with_its_own_definition_unless_declared_before':
+            'implies(len(%s) == 1, all(implies(not (f.rg in head(read_groups, 1)), read_groups[f.rg] == RGDEF_OF(f.rg)) for f in FRAGS))' % NEW,
+        'declared_read_groups_are_never_removed': 'forall("g:str", implies(g in head(read_groups, 1), g in read_groups))',
+    })}
+run_task_rg.assumptions = list(run_task.assumptions) + ['fragment.get_read_group through a stub: (id, definition(id)); two fragments per molecule']
+UNITS.append(run_task_rg)
+
+
 def extra_units():
     """shared units: the tiling of C17 with the stronger margin clause this property needs (a fetch window extends by exactly
     the fragment size unless the region / a blacklisted interval is nearer), and the per-job accumulation of C05"""
